@@ -22,6 +22,7 @@ from __future__ import annotations
 import collections
 import copy
 import datetime
+import pickle
 import random as _pyrandom
 
 import numpy as np
@@ -161,7 +162,21 @@ def _form(v):
     return "S"
 
 
+_FC = {}
+
+
 def feat(x):
+    """Kind of x, memoised per live object (the cache is dropped whenever the world is rebuilt)."""
+    e = _FC.get(id(x))
+    if e is not None and e[0] is x:
+        return e[1]
+    k = _feat_raw(x)
+    if x is not None:
+        _FC[id(x)] = (x, k)
+    return k
+
+
+def _feat_raw(x):
     import darsia
 
     if isinstance(x, darsia.Image):
@@ -211,6 +226,55 @@ def _dig(obj, ignore=()):
     return digest(obj)
 
 
+def _view(obj, ignore=()):
+    import darsia
+
+    if isinstance(obj, darsia.Image):
+        return {a: v for a, v in vars(obj).items() if a not in ignore} if ignore else obj
+    d = getattr(obj, "__dict__", None)
+    if d is not None and not isinstance(obj, np.ndarray):
+        return [type(obj).__name__, {a: v for a, v in d.items() if not a.startswith("cached_") and a not in ignore}]
+    return obj
+
+
+def _sig(obj, ignore=()):
+    """Fast full-content signature: the pickle of the object (C speed).  Equal pickles of the same live object imply equal
+    content; unequal pickles are confirmed with the canonical digest (see _changed)."""
+    try:
+        return pickle.dumps(_view(obj, ignore), protocol=5)
+    except Exception:  # noqa: BLE001 - not picklable: canonical digest
+        return _dig(obj, ignore)
+
+
+def _changed(obj, ignore, before):
+    now = _sig(obj, ignore)
+    if now == before:
+        return False
+    if isinstance(before, bytes) and isinstance(now, bytes):
+        # pickles may differ for equal content (memoised references): decide with the canonical digest
+        return digest(pickle.loads(before)) != digest(_view(obj, ignore))
+    return True
+
+
+def _reach_ids(obj, out=None, depth=0):
+    """ids of every object reachable from obj (lists, tuples, dicts, arrays, instances)."""
+    if out is None:
+        out = set()
+    if id(obj) in out or depth > 8 or isinstance(obj, (str, bytes, int, float, bool, type(None))):
+        return out
+    out.add(id(obj))
+    if isinstance(obj, dict):
+        for v in obj.values():
+            _reach_ids(v, out, depth + 1)
+    elif isinstance(obj, (list, tuple)):
+        for v in obj:
+            _reach_ids(v, out, depth + 1)
+    elif hasattr(obj, "__dict__") and not isinstance(obj, np.ndarray):
+        for v in vars(obj).values():
+            _reach_ids(v, out, depth + 1)
+    return out
+
+
 def pool_containers(pool):
     out = []
     for n, o in pool.items():
@@ -239,11 +303,16 @@ class Ctx:
 
     def __init__(self, pool, prev):
         self.pool, self.prev = pool, prev
-        self.args = []  # (obj, role, ignore, digest-before)
+        self.args = []  # (obj, role, ignore, signature-before)
+        self.dry = False
+        self.used = False
         self.ref = None  # expected raw array for arithmetic
 
     def use(self, obj, role, ignore=()):
-        self.args.append((obj, role, tuple(ignore), _dig(obj, ignore)))
+        if self.dry:
+            raise DryStop()
+        self.used = True
+        self.args.append((obj, role, tuple(ignore), _sig(obj, ignore)))
         return obj
 
     def __getitem__(self, name):
@@ -262,6 +331,10 @@ def op(name, dom="img", group=None, arith=False):
 
 class Disabled(Exception):
     """The call form is not enabled for this operand (a-priori guard)."""
+
+
+class DryStop(Exception):
+    """Raised by Ctx.use in a dry run: every guard has passed, the call itself is not made."""
 
 
 def need(cond):
@@ -1311,8 +1384,9 @@ class World:
         for opname, xname in self.hist:
             c = Ctx(self.pool, self.prev)
             self.prev = REG[opname]["fn"](c, self.operand(xname))
-        self.pdig = {n: _dig(o) for n, o in self.pool.items()}
-        self.prevdig = _dig(self.prev) if self.prev is not None else None
+        _FC.clear()
+        self.pdig = {n: _sig(o) for n, o in self.pool.items()}
+        self.prevdig = _sig(self.prev) if self.prev is not None else None
         self.pcont = pool_containers(self.pool)
 
     def operand(self, xname):
@@ -1370,18 +1444,18 @@ def transition(w, opname, xname, r, stats):
     # ---- arguments, pool, previous result unchanged
     changed = {}
     for obj, role, ignore, before in c.args:
-        if _dig(obj, ignore) != before:
+        if _changed(obj, ignore, before):
             changed.setdefault(id(obj), (obj, role))
     # attribute to the innermost changed argument: drop an argument that merely contains another changed one
     changed_args = []
     for oid, (obj, role) in changed.items():
-        inner = {id(v) for v in containers_of(obj).values()} - {oid}
+        inner = _reach_ids(obj) - {oid}
         if not any(o2 in inner for o2 in changed if o2 != oid):
             changed_args.append(role)
     arg_ids = {id(o) for o, _, _, _ in c.args}
-    changed_pool = [n for n, o in w.pool.items() if id(o) not in arg_ids and _dig(o) != w.pdig[n]]
+    changed_pool = [n for n, o in w.pool.items() if id(o) not in arg_ids and _changed(o, (), w.pdig[n])]
     # pool objects passed with an 'ignore' list are compared through their registration only
-    changed_prev = w.prev is not None and id(w.prev) not in arg_ids and _dig(w.prev) != w.prevdig
+    changed_prev = w.prev is not None and id(w.prev) not in arg_ids and _changed(w.prev, (), w.prevdig)
     bystanders = changed_pool + (["prev"] if changed_prev else [])
     detail = dict(op=opname, operand=xname, operand_kind=list(kx), history=w.hist, changed_arguments=sorted(set(changed_args)), changed_bystanders=bystanders,
                   exception=repr(exc) if exc else None)
@@ -1428,13 +1502,40 @@ def transition(w, opname, xname, r, stats):
         w.rebuild()
         return "violated", None
     # documented in-place effects that are exempt from the comparison still dirty the world
-    if any(id(o) in arg_ids and _dig(o) != w.pdig[n] for n, o in w.pool.items()) or (w.prev is not None and id(w.prev) in arg_ids and _dig(w.prev) != w.prevdig):
+    if any(id(o) in arg_ids and _changed(o, (), w.pdig[n]) for n, o in w.pool.items()) or (w.prev is not None and id(w.prev) in arg_ids and _changed(w.prev, (), w.prevdig)):
         # the result was produced on the discarded world: it is not extended
         w.rebuild()
         return ("raised" if exc is not None else "ok-unchainable"), None
     if exc is not None:
         return "raised", None
     return "ok", res
+
+
+def coarse_kind(k):
+    """Kind without extents / dimension / origin values: what they decide (which call forms are enabled, which pool operand is a
+    compatible partner) enters the abstract state through enabled_forms()."""
+    return (k.what, k.cls, k.sd, k.scalar, k.series, k.dt, k.cs, k.datef, k.timef, k.refd, len(k.shape))
+
+
+def enabled_forms(w, x):
+    """Names of the call forms whose a-priori guards accept x as variable operand (dry run: stops at the first argument)."""
+    import darsia
+
+    dom = "img" if isinstance(x, darsia.Image) else "arr"
+    out = []
+    for opname in OPS:
+        if REG[opname]["dom"] != dom:
+            continue
+        c = Ctx(w.pool, w.prev)
+        c.dry = True
+        try:
+            REG[opname]["fn"](c, x)
+        except Disabled:
+            continue
+        except DryStop:
+            pass
+        out.append(opname)
+    return tuple(out)
 
 
 def successors(w, first):
@@ -1503,11 +1604,11 @@ def run_chain(case, r):
                 if chainable(res) and level < depth:
                     prev0, prevdig0 = w.prev, w.prevdig
                     w.hist = hist0 + [[opname, xname]]
-                    w.prev, w.prevdig = res, _dig(res)
+                    w.prev, w.prevdig = res, _sig(res)
                     extend(level + 1)
                     # back to the parent state: pool is verified pristine, prev0 verified unchanged
                     w.hist = hist0
-                    if w.prev is not res or _dig(prev0) != prevdig0:
+                    if w.prev is not res or _changed(prev0, (), prevdig0):
                         w.rebuild()
                     else:
                         w.prev, w.prevdig = prev0, prevdig0
@@ -1527,7 +1628,7 @@ def run_chain(case, r):
         _note(r, w, case["op"], case["x"], res)
         if chainable(res) and depth >= 2:
             w.hist = [[case["op"], case["x"]]]
-            w.prev, w.prevdig = res, _dig(res)
+            w.prev, w.prevdig = res, _sig(res)
             extend(2)
     r.count("transitions", stats["transitions"])
     r.count("states", stats["transitions"] - 1)
@@ -1546,7 +1647,7 @@ def run_fix(case, r):
 
     def visit(hist, res):
         nonlocal capped, maxdepth
-        key = (tuple(feat(res)), alias_sig(res, w.pcont))
+        key = (coarse_kind(feat(res)), alias_sig(res, w.pcont), enabled_forms(w, res))
         if key in seen:
             return
         if len(seen) >= cap:
